@@ -1,6 +1,6 @@
 """C02 - applying a legal move yields the correct successor position."""
 from analysis.runner import rule
-from analysis.effects import acnorm
+from analysis.effects import canon, acnorm
 from analysis.facts import AnchorError
 from analysis import terms as T, k2, makemove as M
 from analysis import chessref as R
@@ -65,7 +65,7 @@ def r1(ctx):
         v = eng.freeze(lv[0].state, lv[0].ext.get(slf, ("obj", slf)))
         new = T.get_path(v, (("f", 0, "0", None),))
         tab = ("field", ("index", ("index", ("obj", ("static", key)), ("cast", "usize", ("discr", prm[1]))), ("cast", "usize", ("discr", prm[2]))), "0")
-        ok = acnorm(new) == acnorm(eng.binop("BitAnd", ("field", ("obj", slf), "0"), tab))
+        ok = canon(new) == canon(eng.binop("BitAnd", ("field", ("obj", slf), "0"), tab))
     ctx.ob("remove_for_sq", ok, "remove_for_sq does not compute rights &= CASTLE_RIGHTS_PER_SQ[colour][square]", site=P.body(CR + "CastleRights::remove_for_sq").get("def_span"),
            sample="self.0 &= TABLE[turn][end].0")
 
@@ -261,7 +261,11 @@ def r6(ctx):
                 gate_ok &= same and ok_call
             else:
                 stores = [b for b in lf.ext if b in (("param", 0, "self"), ("param", 2, "a2"))]
-                refuse_ok &= same and not calls and not stores and lf.ret == refusal
+                ret = lf.ret
+                for t2, v2 in lf.cond:          # `let legal = is_legal(mv); ... legal`: the result is the tested value itself
+                    if t2 == ret and v2 in (0, 1):
+                        ret = T.TRUE if v2 else T.FALSE
+                refuse_ok &= same and not calls and not stores and ret == refusal
         ctx.ob(f"{fn} gate", gate_ok and n_acc == 1, f"{fn}: the unchecked operation is not called exactly under is_legal(mv) == true of the same board and move", site=body.get("def_span"),
                sample={"paths": len(leaves)})
         ctx.ob(f"{fn} refusal", refuse_ok, f"{fn}: on an illegal move something is stored or the result is not {T.show(refusal)}", site=body.get("def_span"))
